@@ -36,7 +36,7 @@ def shards(tier):
 
 def required_counters(tier):
     d = {"transform." + t: 50 for t in TRANSFORMS}
-    d.update({"eager.accept": 50, "eager.reject": 50, "value_independence": 100, "pytree_args": 20, "tracer_checks_observed": 500, "oracle_crosscheck": 100, "param_named_like_symbolic_name": 30, "question.cases": 50, "dict.cases": 50, "rechecked_after_warmup": 100, "mutation.cases": 50, "weak.cases": 100, "buffer_and_key.cases": 30, "rank0_any.cases": 50, "local_string_annotations.cases": 50, "dataclass.cases": 100, "typevar.mixed_tracer_concrete": 200})
+    d.update({"static_attribute.cases": 40, "eager.accept": 50, "eager.reject": 50, "value_independence": 100, "pytree_args": 20, "tracer_checks_observed": 500, "oracle_crosscheck": 100, "param_named_like_symbolic_name": 30, "question.cases": 50, "dict.cases": 50, "rechecked_after_warmup": 100, "mutation.cases": 50, "weak.cases": 100, "buffer_and_key.cases": 30, "rank0_any.cases": 50, "local_string_annotations.cases": 50, "dataclass.cases": 100, "typevar.mixed_tracer_concrete": 200})
     return d
 
 
@@ -544,6 +544,58 @@ def run_buffer_and_key_case(rec, rng, rngkey):
                 rec.violation("trace-vs-eager", dict(case, what=fn_name, key=kind), f"{fn_name} called with a {kind}: {res}, expected {want} everywhere", mechanism="prng-key-" + ("eager" if res["eager"] != want else "traced") + "-deviates")
 
 
+def run_static_attribute_case(rec, rng, rngkey):
+    """symbolic axes that read STATIC facts about an array argument - `{x.ndim}`, `{x.shape[0]}`, `{len(x)}`,
+    `{x.size}`, `{x.dtype.itemsize}` - known while tracing exactly as they are eagerly: same verdict"""
+    import beartype
+    import jax
+    import jax.numpy as jnp
+    import typeguard
+
+    import jaxtyping
+    from jaxtyping import jaxtyped
+
+    def attempt(thunk):
+        try:
+            thunk()
+            return "accept"
+        except Exception as e:  # noqa
+            return classify(e)
+
+    exprs = ["{x.ndim}", "{x.shape[0]}", "{len(x)}", "{x.size}", "{x.dtype.itemsize}", "{x.shape[-1]}+1", "{x.ndim}*{x.shape[0]}"]
+    expr = rng.choice(exprs)
+    shape = rng.choice(((2,), (3,), (2, 3), (4, 1)))
+    x = jax.device_put(np.zeros(shape, "float32"))
+    true_size = eval(expr.replace("{", "(").replace("}", ")"), {"x": np.zeros(shape, "float32"), "len": len})
+    good = rng.random() < 0.5
+    m = true_size if good else true_size + 1
+    for cname, checker in (("typeguard", typeguard.typechecked), ("beartype", beartype.beartype)):
+        ns = {"__name__": "jtv_c17_generated", "jnp": jnp, "X": jaxtyping.Float[jax.Array, "..."], "R": jaxtyping.Float[jax.Array, expr], "M": m}
+        real.exec_src("def f(x: X) -> R:\n    return jnp.zeros((M,), 'float32')\ndef g(x: X, y: R):\n    return x\n", ns)
+        f, g = (jaxtyped(typechecker=checker)(ns[k]) for k in ("f", "g"))
+        y = jax.device_put(np.zeros((m,), "float32"))
+        want = "accept" if good else "reject"
+        case = {"static_attribute_case": True, "expr": expr, "x_shape": list(shape), "returned_size": m, "checker": cname, "rngkey": rngkey}
+        rec.count("static_attribute.cases")
+        rec.case(("static-attr", expr, shape, good, cname), True)
+        for label, call_e, calls in (
+            ("return annotation", lambda: f(x), {"jit": lambda: jax.jit(f)(x), "eval_shape": lambda: jax.eval_shape(f, x), "grad": lambda: jax.grad(lambda a: f(a).sum())(x)}),
+            ("parameter annotation", lambda: g(x, y), {"jit": lambda: jax.jit(g)(x, y), "eval_shape": lambda: jax.eval_shape(g, x, y), "jit-of-lambda": lambda: jax.jit(lambda a, b: g(a, b))(x, y)}),
+        ):
+            eager = attempt(call_e)
+            if eager != want:
+                rec.violation("eager-vs-oracle", dict(case, where=label), f"{label} Float[Array, {expr!r}] with x of shape {shape} and a size-{m} value: eager {eager}, expected {want}", mechanism=f"static-attribute-eager-{eager}-expected-{want}")
+                return
+            for t, thunk in calls.items():
+                if thunk is None:
+                    continue
+                v = attempt(thunk)
+                rec.count("transform." + t)
+                if v != eager:
+                    rec.violation("trace-vs-eager", dict(case, where=label, transform=t), f"{label} Float[Array, {expr!r}] (x of shape {shape}, value of size {m}): {t} {v}, eager {eager}", mechanism=f"static-attribute-{t}-{v.split(':')[0]}-eager-{eager}")
+                    return
+
+
 def run_weak_case(rec, rng, rngkey):
     """weakly typed values (Python scalars handed to jit / grad / eval_shape, jnp.asarray(2.0), jnp.full): the
     tracer carries a shape and a dtype; `weak_type` is not part of either - the verdict is the one an eager call on
@@ -663,6 +715,8 @@ def run_shard(rec, seed, shard, tier):
             run_dataclass_case(rec, random.Random(key + "/dc"), key + "/dc")
             if k % 8 == 3:
                 run_buffer_and_key_case(rec, random.Random(key + "/bk"), key + "/bk")
+            if k % 8 == 7:
+                run_static_attribute_case(rec, random.Random(key + "/sa"), key + "/sa")
     r = random.Random(f"{seed}/C17/{shard['i']}/0")
     s = GS.gen_signature(r, max_params=3, p_ret=0.8)
     rec.sample({"sig": s, "transforms": TRANSFORMS})
